@@ -24,21 +24,73 @@ Inductive Representable : Q -> basic -> Prop :=
 
 Definition Numeric (k : bclass) : Prop := k = KInt \/ k = KFloat.
 
-(* implicit conversion of an untyped operand (kind k, value c) to type t:
-   an untyped boolean converts to boolean types, an untyped string constant to
-   string types, a numeric constant to any numeric type that represents it *)
-Inductive ConvUntyped : ukind -> option cval -> ty -> Prop :=
-| CU_bool : forall c t, class_of (under t) = KBool -> ConvUntyped UBool c t
-| CU_str : forall c t, class_of (under t) = KStr -> ConvUntyped UString c t
-| CU_num : forall k q t,
-    Numeric (kind_class k) -> Numeric (class_of (under t)) ->
-    Representable q (under t) -> ConvUntyped k (Some (CNum q)) t.
+(* ------------------------------------------------------- properties of types *)
+
+(* interface types of the fragment: the empty interface and the types defined over it *)
+Definition IsIface (t : ty) : Prop := underlying t = TAny.
+
+(* "Predeclared types, defined types [...] are called named types" *)
+Inductive Named : ty -> Prop :=
+| Nm_basic : forall b, Named (TBasic b)
+| Nm_named : forall n b, Named (TNamed n b)
+| Nm_def : forall n u, Named (TDef n u).
+
+(* "The predeclared identifier nil [...] a pointer, function, slice, map,
+   channel, or interface type" *)
+Inductive Nillable : ty -> Prop :=
+| Ni_ptr : forall t p, underlying t = TPtr p -> Nillable t
+| Ni_slice : forall t e, underlying t = TSlice e -> Nillable t
+| Ni_map : forall t k v, underlying t = TMap k v -> Nillable t
+| Ni_func : forall t ps rs, underlying t = TFunc ps rs -> Nillable t
+| Ni_iface : forall t, IsIface t -> Nillable t.
+
+(* "Boolean, numeric, string, pointer, and channel types are strictly
+   comparable. Interface types are comparable. Struct types are comparable if
+   all their field types are comparable. Array types are comparable if their
+   array element types are comparable. Slice, map, and function types are not
+   comparable." *)
+Inductive Comparable : ty -> Prop :=
+| Cm_basic : forall b, Comparable (TBasic b)
+| Cm_named : forall n b, Comparable (TNamed n b)
+| Cm_ptr : forall t, Comparable (TPtr t)
+| Cm_any : Comparable TAny
+| Cm_array : forall n e, Comparable e -> Comparable (TArray n e)
+| Cm_struct : forall fs, Forall Comparable fs -> Comparable (TStruct fs)
+| Cm_def : forall n u, Comparable u -> Comparable (TDef n u).
 
 (* "A value x of type V is assignable to a variable of type T if V and T are
-   identical, or x is an untyped constant representable by a value of type T"
-   (the other clauses concern types outside the fragment) *)
+   identical; V and T have identical underlying types [...] and at least one
+   of V or T is not a named type; T is an interface type [...] and x
+   implements T" (every type implements the empty interface) *)
+Inductive AssignableTy : ty -> ty -> Prop :=
+| ATy_identical : forall t, AssignableTy t t
+| ATy_underlying : forall v t,
+    underlying v = underlying t -> (~ Named v \/ ~ Named t) -> AssignableTy v t
+| ATy_iface : forall v t, IsIface t -> AssignableTy v t.
+
+(* implicit conversion of an untyped operand (kind k, value c) to a type of
+   basic underlying type: an untyped boolean converts to boolean types, an
+   untyped string constant to string types, a numeric constant to any numeric
+   type that represents it *)
+Inductive ConvBasic : ukind -> option cval -> ty -> Prop :=
+| CB_bool : forall c t, tclass t = KBool -> ConvBasic UBool c t
+| CB_str : forall c t, tclass t = KStr -> ConvBasic UString c t
+| CB_num : forall k q t,
+    Numeric (kind_class k) -> Numeric (tclass t) ->
+    Representable q (under t) -> ConvBasic k (Some (CNum q)) t.
+
+(* nil converts to the types that have a nil value; an untyped constant that
+   is converted to an interface type is first converted to its default type *)
+Inductive ConvUntyped : ukind -> option cval -> ty -> Prop :=
+| CU_basic : forall k c t, ConvBasic k c t -> ConvUntyped k c t
+| CU_nil : forall c t, Nillable t -> ConvUntyped UNil c t
+| CU_iface : forall k c t, IsIface t -> ConvBasic k c (default_ty k) -> ConvUntyped k c t.
+
+(* "x is an untyped constant representable by a value of type T"; "x is the
+   predeclared identifier nil and T is a pointer, function, slice, map,
+   channel, or interface type" *)
 Inductive Assignable : etype -> ty -> Prop :=
-| As_identical : forall t c, Assignable (EVal (VT t) c) t
+| As_typed : forall t2 t c, AssignableTy t2 t -> Assignable (EVal (VT t2) c) t
 | As_untyped : forall k c t, ConvUntyped k c t -> Assignable (EVal (VU k) c) t.
 
 (* the type of x in  x := e,  var x = e,  _ = e : the type of e, or the
@@ -76,7 +128,7 @@ Inductive Operands : etype -> etype -> vty -> option cval -> option cval -> Prop
 (* Arithmetic operators: + applies to integers, floats and strings; - * / to
    integers and floats; % & | ^ &^ to integers; && || to booleans *)
 Inductive OpDefined : binop -> bclass -> Prop :=
-| OD_add : forall k, k <> KBool -> OpDefined OAdd k
+| OD_add : forall k, (k = KStr \/ Numeric k) -> OpDefined OAdd k
 | OD_sub : forall k, Numeric k -> OpDefined OSub k
 | OD_mul : forall k, Numeric k -> OpDefined OMul k
 | OD_div : forall k, Numeric k -> OpDefined ODiv k
@@ -108,28 +160,28 @@ Definition IntClass (v : vty) : Prop := vty_class v = KInt.
 (* the count of a shift: "of integer type, or an untyped constant
    representable by a value of type uint"; a constant count is not negative *)
 Inductive ShiftCount : vty -> option cval -> Prop :=
-| SC_var : forall t, class_of (under t) = KInt -> ShiftCount (VT t) None
+| SC_var : forall t, tclass t = KInt -> ShiftCount (VT t) None
 | SC_typed_const : forall t q z,
-    class_of (under t) = KInt -> Qeq q (inject_Z z) -> (0 <= z)%Z -> ShiftCount (VT t) (Some (CNum q))
+    tclass t = KInt -> Qeq q (inject_Z z) -> (0 <= z)%Z -> ShiftCount (VT t) (Some (CNum q))
 | SC_untyped_const : forall k q,
     Numeric (kind_class k) -> Representable q BUint -> ShiftCount (VU k) (Some (CNum q)).
 
 Inductive Shift : binop -> etype -> etype -> etype -> Prop :=
 (* non constant shift of a variable of integer type *)
 | Sh_var : forall o t vb cb,
-    ShiftCount vb cb -> class_of (under t) = KInt ->
+    ShiftCount vb cb -> tclass t = KInt ->
     Shift o (EVal (VT t) None) (EVal vb cb) (EVal (VT t) None)
 (* constant shift: the left operand is a constant of integer type or an
    untyped constant with an integer value *)
 | Sh_const : forall o va q x vb qs s r,
     ShiftCount vb (Some (CNum qs)) ->
-    (match va with VT t => class_of (under t) = KInt | VU k => Numeric (kind_class k) end) ->
+    (match va with VT t => tclass t = KInt | VU k => Numeric (kind_class k) end) ->
     Qeq q (inject_Z x) -> Qeq qs (inject_Z s) -> (s <= max_shift)%Z ->
     r = CNum (qz (shift_value o x s)) -> ConstOK (shift_result_vty va) r ->
     Shift o (EVal va (Some (CNum q))) (EVal vb (Some (CNum qs))) (EVal (shift_result_vty va) (Some r))
 (* a typed constant shifted by a non constant count *)
 | Sh_typed_const_var : forall o t q x vb,
-    ShiftCount vb None -> class_of (under t) = KInt -> Qeq q (inject_Z x) ->
+    ShiftCount vb None -> tclass t = KInt -> Qeq q (inject_Z x) ->
     Shift o (EVal (VT t) (Some (CNum q))) (EVal vb None) (EVal (VT t) None)
 (* an untyped constant shifted by a non constant count: converted to the type
    it would have if the shift were replaced by its left operand; the fragment
@@ -139,13 +191,35 @@ Inductive Shift : binop -> etype -> etype -> etype -> Prop :=
     Representable q BInt ->
     Shift o (EVal (VU k) (Some (CNum q))) (EVal vb None) (EVal (VT (TBasic BInt)) None).
 
+(* "In any comparison, the first operand must be assignable to the type of
+   the second operand, or vice versa." *)
+Inductive CmpCompat : etype -> etype -> option cval -> option cval -> Prop :=
+| CC_typed : forall t1 t2 c1 c2,
+    (AssignableTy t1 t2 \/ AssignableTy t2 t1) -> CmpCompat (EVal (VT t1) c1) (EVal (VT t2) c2) c1 c2
+| CC_untyped : forall a b v c1 c2, Operands a b v c1 c2 -> CmpCompat a b c1 c2.
+
+(* "The equality operators == and != apply to operands of comparable types";
+   "Slice, map, and function types are not comparable. However, as a special
+   case, a slice, map, or function value may be compared to the predeclared
+   identifier nil"; nil cannot be compared to nil *)
+Inductive EqOperand (other : etype) : etype -> Prop :=
+| EO_comparable : forall t c, Comparable t -> EqOperand other (EVal (VT t) c)
+| EO_with_nil : forall t c c2, other = EVal (VU UNil) c2 -> Nillable t -> EqOperand other (EVal (VT t) c)
+| EO_untyped : forall k c, k <> UNil -> EqOperand other (EVal (VU k) c)
+| EO_nil : forall c, (forall c2, other <> EVal (VU UNil) c2) -> EqOperand other (EVal (VU UNil) c).
+
+(* "The ordering operators <, <=, >, and >= apply to operands of ordered
+   types": integer, floating-point and string types *)
+Inductive OrderedOperand : etype -> Prop :=
+| OO_val : forall v c, (vty_class v = KInt \/ vty_class v = KFloat \/ vty_class v = KStr) -> OrderedOperand (EVal v c).
+
 Inductive Binary : binop -> etype -> etype -> etype -> Prop :=
 | B_shift : forall o a b r, is_shift o = true -> Shift o a b r -> Binary o a b r
-(* comparison: == != on all types of the fragment, < <= > >= on ordered ones;
-   the result is an untyped boolean, constant when both operands are *)
-| B_compare : forall o a b v c1 c2,
-    is_comparison o = true -> Operands a b v c1 c2 ->
-    (is_order o = true -> vty_class v <> KBool) ->
+(* comparison: the result is an untyped boolean, constant when both operands are *)
+| B_compare : forall o a b c1 c2,
+    is_comparison o = true -> CmpCompat a b c1 c2 ->
+    (is_order o = true -> OrderedOperand a /\ OrderedOperand b) ->
+    (is_order o = false -> EqOperand b a /\ EqOperand a b) ->
     Binary o a b (EVal (VU UBool) (if both_const c1 c2 then Some COther else None))
 | B_value : forall o a b v c1 c2,
     is_shift o = false -> is_comparison o = false ->
@@ -183,31 +257,227 @@ Inductive Unary : unop -> etype -> etype -> Prop :=
     Unary UCompl (EVal v (Some (CNum q))) (EVal v (Some (CNum (qz (compl_value v x))))).
 
 (* conversions T(x) *)
+Definition BytesOrRunes (t : ty) : Prop :=
+  exists e, underlying t = TSlice e /\ (underlying e = TBasic BUint8 \/ underlying e = TBasic BInt32).
+
+(* "A non-constant value x can be converted to type T in any of these cases" *)
+Definition Convertible (t2 t : ty) : Prop :=
+  AssignableTy t2 t \/
+  underlying t2 = underlying t \/
+  (exists a b, t2 = TPtr a /\ t = TPtr b /\ underlying a = underlying b) \/
+  (Numeric (tclass t2) /\ Numeric (tclass t)) \/
+  (tclass t2 = KInt /\ tclass t = KStr) \/
+  (tclass t2 = KStr /\ BytesOrRunes t) \/
+  (BytesOrRunes t2 /\ tclass t = KStr).
+
 Inductive Convert : ty -> etype -> etype -> Prop :=
+(* a constant converted to an interface type or to a slice of bytes or runes
+   yields a non constant value *)
+| Cv_const_iface_typed : forall t t2 c,
+    IsIface t -> Convert t (EVal (VT t2) (Some c)) (EVal (VT t) None)
+| Cv_const_iface_untyped : forall t k c,
+    IsIface t -> ConvBasic k (Some c) (default_ty k) -> Convert t (EVal (VU k) (Some c)) (EVal (VT t) None)
+| Cv_const_bytes : forall t v c,
+    vty_class v = KStr -> BytesOrRunes t -> Convert t (EVal v (Some c)) (EVal (VT t) None)
 (* constant conversions: "x is representable by a value of type T", or "x is
    an integer constant and T is a string type" *)
 | Cv_const_num : forall t v q,
-    Numeric (vty_class v) -> Numeric (class_of (under t)) -> Representable q (under t) ->
+    Numeric (vty_class v) -> Numeric (tclass t) -> Representable q (under t) ->
     Convert t (EVal v (Some (CNum q))) (EVal (VT t) (Some (CNum q)))
 | Cv_const_int_string : forall t v q,
-    vty_class v = KInt -> class_of (under t) = KStr ->
+    vty_class v = KInt -> tclass t = KStr ->
     Convert t (EVal v (Some (CNum q))) (EVal (VT t) (Some COther))
 | Cv_const_same : forall t v,
-    (vty_class v = KStr \/ vty_class v = KBool) -> class_of (under t) = vty_class v ->
+    (vty_class v = KStr \/ vty_class v = KBool) -> tclass t = vty_class v ->
     Convert t (EVal v (Some COther)) (EVal (VT t) (Some COther))
-(* non constant values: identical underlying types, both numeric, or an
-   integer to a string type *)
-| Cv_value : forall t t',
-    (under t' = under t \/
-     (Numeric (class_of (under t')) /\ Numeric (class_of (under t))) \/
-     (class_of (under t') = KInt /\ class_of (under t) = KStr)) ->
-    Convert t (EVal (VT t') None) (EVal (VT t) None)
-(* an untyped boolean value (a comparison) converts to boolean types *)
+| Cv_value : forall t t2, Convertible t2 t -> Convert t (EVal (VT t2) None) (EVal (VT t) None)
+(* nil converts to the types that have a nil value *)
+| Cv_nil : forall t, Nillable t -> Convert t (EVal (VU UNil) None) (EVal (VT t) None)
+(* an untyped boolean value (a comparison) converts to boolean and interface types *)
 | Cv_untyped_bool : forall t k,
-    kind_class k = KBool -> class_of (under t) = KBool ->
+    kind_class k = KBool -> (tclass t = KBool \/ IsIface t) ->
     Convert t (EVal (VU k) None) (EVal (VT t) None).
 
+(* --------------------------------------- index, slice, selector, indirection *)
+
+(* "the index x must be an untyped constant or its core type must be an
+   integer"; "a constant index must be non-negative and representable by a
+   value of type int" *)
+Inductive IndexOK : etype -> option Z -> Prop :=
+| IO_var : forall t, tclass t = KInt -> IndexOK (EVal (VT t) None) None
+| IO_typed_const : forall t q z,
+    tclass t = KInt -> Qeq q (inject_Z z) -> (0 <= z)%Z -> IndexOK (EVal (VT t) (Some (CNum q))) (Some z)
+| IO_untyped_const : forall k q z,
+    Numeric (kind_class k) -> Representable q BInt -> Qeq q (inject_Z z) -> (0 <= z)%Z ->
+    IndexOK (EVal (VU k) (Some (CNum q))) (Some z).
+
+Definition InBound (z : option Z) (n : Z) (incl : bool) : Prop :=
+  match z with Some z => if incl then (z <= n)%Z else (z < n)%Z | None => True end.
+
+Definition ArrayOf (t : ty) (n : Z) (e : ty) : Prop :=
+  underlying t = TArray n e \/ exists p, underlying t = TPtr p /\ underlying p = TArray n e.
+
+Definition byte_val : etype := EVal (VT (TBasic BUint8)) None.
+
+(* "For a of array type: a constant index must be in range"; pointer to
+   array: indexed through the pointer; slice; string: a[x] is a non constant byte
+   value; map: "x's type must be assignable to the key type of M" *)
+Inductive Index : etype -> etype -> etype -> Prop :=
+| Ix_slice : forall t c e i z, underlying t = TSlice e -> IndexOK i z -> Index (EVal (VT t) c) i (EVal (VT e) None)
+| Ix_map : forall t c k v i, underlying t = TMap k v -> Assignable i k -> Index (EVal (VT t) c) i (EVal (VT v) None)
+| Ix_array : forall t c n e i z,
+    ArrayOf t n e -> IndexOK i z -> InBound z n false -> Index (EVal (VT t) c) i (EVal (VT e) None)
+| Ix_string : forall t c i z, tclass t = KStr -> IndexOK i z -> Index (EVal (VT t) c) i byte_val
+| Ix_const_string : forall c i z, IndexOK i z -> Index (EVal (VU UString) (Some c)) i byte_val.
+
+Definition BoundsOrdered (zl zh : option Z) : Prop :=
+  match zl, zh with Some l, Some h => (l <= h)%Z | _, _ => True end.
+
+(* a[low : high]: "If the sliced operand of a valid slice expression is a nil
+   slice [...] if the sliced operand is an array, it must be addressable";
+   "constant indices must be in range", "if both indices are constant, they
+   must satisfy low <= high"; the result of slicing a string or a slice has
+   the type of the operand, an array gives a slice of its element type *)
+Inductive Slice (A : Prop) : etype -> option Z -> option Z -> etype -> Prop :=
+| Sl_slice : forall t c e zl zh,
+    underlying t = TSlice e -> BoundsOrdered zl zh -> Slice A (EVal (VT t) c) zl zh (EVal (VT t) None)
+| Sl_array : forall t c n e zl zh,
+    underlying t = TArray n e -> A -> BoundsOrdered zl zh -> InBound zl n true -> InBound zh n true ->
+    Slice A (EVal (VT t) c) zl zh (EVal (VT (TSlice e)) None)
+| Sl_ptr : forall t c p n e zl zh,
+    underlying t = TPtr p -> underlying p = TArray n e ->
+    BoundsOrdered zl zh -> InBound zl n true -> InBound zh n true ->
+    Slice A (EVal (VT t) c) zl zh (EVal (VT (TSlice e)) None)
+| Sl_string : forall t c zl zh,
+    tclass t = KStr -> BoundsOrdered zl zh -> Slice A (EVal (VT t) c) zl zh (EVal (VT t) None)
+| Sl_const_string : forall c zl zh,
+    BoundsOrdered zl zh -> Slice A (EVal (VU UString) (Some c)) zl zh (EVal (VT (TBasic BString)) None).
+
+Definition StructOf (t : ty) (fs : list ty) : Prop :=
+  underlying t = TStruct fs \/ exists p, underlying t = TPtr p /\ underlying p = TStruct fs.
+
+(* x.f: field f of a struct, or of the struct a pointer points to *)
+Inductive Select : etype -> N -> etype -> Prop :=
+| Se_field : forall t c fs i f,
+    StructOf t fs -> nth_error fs (N.to_nat i) = Some f -> Select (EVal (VT t) c) i (EVal (VT f) None).
+
+(* *p *)
+Inductive Deref : etype -> etype -> Prop :=
+| De_ptr : forall t c p, underlying t = TPtr p -> Deref (EVal (VT t) c) (EVal (VT p) None).
+
+(* x.(T): "x is of interface type" *)
+Inductive Assert : etype -> ty -> etype -> Prop :=
+| Ass_iface : forall t2 c t, IsIface t2 -> wf_ty t = true -> Assert (EVal (VT t2) c) t (EVal (VT t) None).
+
+(* ------------------------------------------------------------------- builtins *)
+
+(* len: string, array, pointer to array, slice, map; cap: array, pointer to
+   array, slice; "The expressions len(s) and cap(s) are constants if the type
+   of s is an array or pointer to an array and the expression s does not
+   contain [...] function calls" *)
+Inductive Len (cp nocalls : bool) : etype -> etype -> Prop :=
+| Ln_slice : forall t c e, underlying t = TSlice e -> Len cp nocalls (EVal (VT t) c) int_val
+| Ln_map : forall t c k v, cp = false -> underlying t = TMap k v -> Len cp nocalls (EVal (VT t) c) int_val
+| Ln_array_const : forall t c n e,
+    ArrayOf t n e -> nocalls = true -> Len cp nocalls (EVal (VT t) c) (EVal (VT (TBasic BInt)) (Some (CNum (qz n))))
+| Ln_array : forall t c n e, ArrayOf t n e -> nocalls = false -> Len cp nocalls (EVal (VT t) c) int_val
+| Ln_string : forall t c, cp = false -> tclass t = KStr -> Len cp nocalls (EVal (VT t) c) int_val
+| Ln_const_string : forall c, cp = false -> Len cp nocalls (EVal (VU UString) (Some c)) int_val.
+
+(* append(s S, x ...E) S *)
+Inductive Append : etype -> list etype -> etype -> Prop :=
+| Ap_slice : forall t c e vs,
+    underlying t = TSlice e -> Forall (fun v => Assignable v e) vs -> Append (EVal (VT t) c) vs (EVal (VT t) None).
+
+(* make(T, n) slice; make(T, n, m) slice; make(T) map; make(T, n) map: "each
+   of the size arguments n and m must be of integer type [...] or an untyped
+   constant. A constant size argument must be non-negative and representable
+   by a value of type int; if both n and m are provided and are constant,
+   then n must be no larger than m" *)
+Inductive Make : ty -> list etype -> etype -> Prop :=
+| Mk_slice1 : forall t e l z, wf_ty t = true -> underlying t = TSlice e -> IndexOK l z -> Make t [l] (EVal (VT t) None)
+| Mk_slice2 : forall t e l c zl zc,
+    wf_ty t = true -> underlying t = TSlice e -> IndexOK l zl -> IndexOK c zc -> BoundsOrdered zl zc ->
+    Make t [l; c] (EVal (VT t) None)
+| Mk_map0 : forall t k v, wf_ty t = true -> underlying t = TMap k v -> Make t [] (EVal (VT t) None)
+| Mk_map1 : forall t k v l z, wf_ty t = true -> underlying t = TMap k v -> IndexOK l z -> Make t [l] (EVal (VT t) None).
+
+(* copy(dst, src []T) int, copy(dst []byte, src string) int *)
+Inductive Copy : etype -> etype -> etype -> Prop :=
+| Cp_slices : forall td cd e ts cs,
+    underlying td = TSlice e -> underlying ts = TSlice e -> Copy (EVal (VT td) cd) (EVal (VT ts) cs) int_val
+| Cp_string : forall td cd e ts cs,
+    underlying td = TSlice e -> underlying e = TBasic BUint8 -> tclass ts = KStr ->
+    Copy (EVal (VT td) cd) (EVal (VT ts) cs) int_val
+| Cp_const_string : forall td cd e c,
+    underlying td = TSlice e -> underlying e = TBasic BUint8 ->
+    Copy (EVal (VT td) cd) (EVal (VU UString) (Some c)) int_val.
+
+(* delete(m, k): "The type of k must be assignable to the key type of m" *)
+Inductive Delete : etype -> etype -> etype -> Prop :=
+| Dl_map : forall t c k v tk, underlying t = TMap k v -> Assignable tk k -> Delete (EVal (VT t) c) tk (ETuple []).
+
+(* --------------------------------------------------------- composite literals *)
+
+(* struct literal without keys: "an element list that does not contain any
+   keys must list an element for each struct field in the order in which the
+   fields are declared" *)
+Inductive LitStructPos : list ty -> list item -> Prop :=
+| LSP_nil : LitStructPos [] []
+| LSP_cons : forall f fs v its, Assignable v f -> LitStructPos fs its -> LitStructPos (f :: fs) (IPos v :: its).
+
+(* with keys: "A key must be a field name declared in the struct type";
+   "It is an error to specify multiple values for the same field" *)
+Inductive LitStructKey (fs : list ty) : list Z -> list item -> Prop :=
+| LSK_nil : forall seen, LitStructKey fs seen []
+| LSK_cons : forall seen z v f its,
+    (0 <= z)%Z -> ~ In z seen -> nth_error fs (Z.to_nat z) = Some f -> Assignable v f ->
+    LitStructKey fs (z :: seen) its -> LitStructKey fs seen (IIdx z v :: its).
+
+Definition BelowBound (z : Z) (bound : option Z) : Prop :=
+  match bound with Some n => (z < n)%Z | None => True end.
+
+(* array and slice literals: "The key is interpreted as [...] the index [...]
+   must be a non-negative constant"; "An element without a key uses the
+   previous element's index plus one"; indices must be in range and distinct *)
+Inductive LitElems (bound : option Z) (e : ty) : Z -> list Z -> list item -> Prop :=
+| LE_nil : forall cur seen, LitElems bound e cur seen []
+| LE_pos : forall cur seen v its,
+    BelowBound cur bound -> ~ In cur seen -> Assignable v e ->
+    LitElems bound e (cur + 1) (cur :: seen) its -> LitElems bound e cur seen (IPos v :: its)
+| LE_idx : forall cur seen z v its,
+    (0 <= z)%Z -> BelowBound z bound -> ~ In z seen -> Assignable v e ->
+    LitElems bound e (z + 1) (z :: seen) its -> LitElems bound e cur seen (IIdx z v :: its).
+
+(* map literals: every element has a key; "It is an error to specify multiple
+   elements with the same constant key value" (tracked for numeric constants) *)
+Inductive LitMap (k v : ty) : list Q -> list item -> Prop :=
+| LM_nil : forall seen, LitMap k v seen []
+| LM_const : forall seen tk tv q its,
+    Assignable tk k -> Assignable tv v -> const_num tk = Some q ->
+    (forall q2, In q2 seen -> ~ Qeq q q2) -> LitMap k v (q :: seen) its ->
+    LitMap k v seen (IKey tk tv :: its)
+| LM_other : forall seen tk tv its,
+    Assignable tk k -> Assignable tv v -> const_num tk = None -> LitMap k v seen its ->
+    LitMap k v seen (IKey tk tv :: its).
+
+Inductive CompLit : ty -> list item -> etype -> Prop :=
+| CL_struct_empty : forall t fs, wf_ty t = true -> underlying t = TStruct fs -> CompLit t [] (EVal (VT t) None)
+| CL_struct_pos : forall t fs its,
+    wf_ty t = true -> underlying t = TStruct fs -> its <> [] -> LitStructPos fs its -> CompLit t its (EVal (VT t) None)
+| CL_struct_key : forall t fs its,
+    wf_ty t = true -> underlying t = TStruct fs -> its <> [] -> LitStructKey fs [] its -> CompLit t its (EVal (VT t) None)
+| CL_array : forall t n e its,
+    wf_ty t = true -> underlying t = TArray n e -> LitElems (Some n) e 0 [] its -> CompLit t its (EVal (VT t) None)
+| CL_slice : forall t e its,
+    wf_ty t = true -> underlying t = TSlice e -> LitElems None e 0 [] its -> CompLit t its (EVal (VT t) None)
+| CL_map : forall t k v its,
+    wf_ty t = true -> underlying t = TMap k v -> LitMap k v [] its -> CompLit t its (EVal (VT t) None).
+
 (* ---------------------------------------------------------------- expressions *)
+
+(* an absent bound of a slice expression, or an index *)
+Definition is_omit (e : expr) : bool := match e with EOmit => true | _ => false end.
 
 Inductive has_type (G : list N) (E : env) : expr -> etype -> Prop :=
 | T_LitB : forall b, has_type G E (ELitB b) (EVal (VU UBool) (Some COther))
@@ -215,21 +485,80 @@ Inductive has_type (G : list N) (E : env) : expr -> etype -> Prop :=
 | T_LitR : forall z, has_type G E (ELitR z) (EVal (VU URune) (Some (CNum (qz z))))
 | T_LitF : forall n d, has_type G E (ELitF n d) (EVal (VU UFloat) (Some (CNum (Qred (n # d)))))
 | T_LitS : forall s, has_type G E (ELitS s) (EVal (VU UString) (Some COther))
+| T_Nil : has_type G E ENilE (EVal (VU UNil) None)
 | T_Var : forall x t, x <> blank -> lookup E x = Some (EntVar t) -> has_type G E (EVar x) (EVal (VT t) None)
 | T_Const : forall x c, x <> blank -> lookup E x = Some (EntConst c) -> has_type G E (EVar x) c
+(* a function name denotes a value of its function type *)
+| T_FuncVal : forall x ps rs, x <> blank -> lookup E x = Some (EntFunc ps rs) ->
+    has_type G E (EVar x) (EVal (VT (TFunc ps rs)) None)
 | T_Un : forall o a ta r, has_type G E a ta -> Unary o ta r -> has_type G E (EUn o a) r
 | T_Bin : forall o a b ta tb r,
     has_type G E a ta -> has_type G E b tb -> Binary o ta tb r -> has_type G E (EBin o a b) r
-| T_Conv : forall t a ta r, has_type G E a ta -> Convert t ta r -> has_type G E (EConv t a) r
+| T_Conv : forall t a ta r, wf_ty t = true -> has_type G E a ta -> Convert t ta r -> has_type G E (EConv t a) r
 | T_Call : forall f args ps rs tas,
     lookup E f = Some (EntFunc ps rs) -> has_types G E args tas -> Forall2 Assignable tas ps ->
+    has_type G E (ECall f args) (call_result rs)
+(* call of a variable of function type *)
+| T_CallVar : forall f args t ps rs tas,
+    lookup E f = Some (EntVar t) -> underlying t = TFunc ps rs ->
+    has_types G E args tas -> Forall2 Assignable tas ps ->
     has_type G E (ECall f args) (call_result rs)
 | T_Pkg : forall p f args ps rs tas,
     In p G -> pkg_sig p f = Some (ps, rs) -> has_types G E args tas -> Forall2 Assignable tas ps ->
     has_type G E (EPkg p f args) (call_result rs)
+| T_CompLit : forall t els its r, has_items G E els its -> CompLit t its r -> has_type G E (ECompLit t els) r
+| T_Index : forall a i ta ti r,
+    has_type G E a ta -> has_type G E i ti -> Index ta ti r -> has_type G E (EIndex a i) r
+| T_Slice : forall a lo hi ta zl zh r,
+    has_type G E a ta -> has_bound G E lo zl -> has_bound G E hi zh ->
+    Slice (Addressable G E a) ta zl zh r -> has_type G E (ESliceE a lo hi) r
+(* &x: "the operand must be addressable [...] or a (possibly parenthesized)
+   composite literal" *)
+| T_Addr : forall a t c,
+    has_type G E a (EVal (VT t) c) -> (Addressable G E a \/ is_complit a = true) ->
+    has_type G E (EAddr a) (EVal (VT (TPtr t)) None)
+| T_Deref : forall a ta r, has_type G E a ta -> Deref ta r -> has_type G E (EDeref a) r
+| T_Sel : forall a i ta r, has_type G E a ta -> Select ta i r -> has_type G E (ESel a i) r
+| T_Len : forall a ta r, has_type G E a ta -> Len false (no_calls a) ta r -> has_type G E (ELen a) r
+| T_Cap : forall a ta r, has_type G E a ta -> Len true (no_calls a) ta r -> has_type G E (ECap a) r
+| T_Append : forall a args ta tas r,
+    has_type G E a ta -> has_types G E args tas -> Append ta tas r -> has_type G E (EAppend a args) r
+| T_Make : forall t args tas r, has_types G E args tas -> Make t tas r -> has_type G E (EMake t args) r
+| T_New : forall t, wf_ty t = true -> has_type G E (ENew t) (EVal (VT (TPtr t)) None)
+| T_Copy : forall d a td ta r,
+    has_type G E d td -> has_type G E a ta -> Copy td ta r -> has_type G E (ECopy d a) r
+| T_Delete : forall m k tm tk r,
+    has_type G E m tm -> has_type G E k tk -> Delete tm tk r -> has_type G E (EDelete m k) r
+| T_Assert : forall a t ta r, has_type G E a ta -> Assert ta t r -> has_type G E (EAssert a t) r
 with has_types (G : list N) (E : env) : exprs -> list etype -> Prop :=
 | T_None : has_types G E ENone []
-| T_Cons : forall e r t ts, has_type G E e t -> has_types G E r ts -> has_types G E (ECons e r) (t :: ts).
+| T_Cons : forall e r t ts, has_type G E e t -> has_types G E r ts -> has_types G E (ECons e r) (t :: ts)
+with has_items (G : list N) (E : env) : elts -> list item -> Prop :=
+| TI_nil : has_items G E LNil []
+| TI_pos : forall e r t its, has_type G E e t -> has_items G E r its -> has_items G E (LPos e r) (IPos t :: its)
+| TI_idx : forall z e r t its, has_type G E e t -> has_items G E r its -> has_items G E (LIdx z e r) (IIdx z t :: its)
+| TI_key : forall k e r tk t its,
+    has_type G E k tk -> has_type G E e t -> has_items G E r its -> has_items G E (LKey k e r) (IKey tk t :: its)
+with has_bound (G : list N) (E : env) : expr -> option Z -> Prop :=
+| TB_omit : has_bound G E EOmit None
+| TB_index : forall e te z, is_omit e = false -> has_type G E e te -> IndexOK te z -> has_bound G E e z
+(* "either a variable, pointer indirection, or slice indexing operation; or a
+   field selector of an addressable struct operand; or an array indexing
+   operation of an addressable array" *)
+with Addressable (G : list N) (E : env) : expr -> Prop :=
+| Ad_var : forall x t, x <> blank -> lookup E x = Some (EntVar t) -> Addressable G E (EVar x)
+| Ad_deref : forall a, Addressable G E (EDeref a)
+| Ad_index_slice : forall a i t c e,
+    has_type G E a (EVal (VT t) c) -> underlying t = TSlice e -> Addressable G E (EIndex a i)
+| Ad_index_ptr : forall a i t c p,
+    has_type G E a (EVal (VT t) c) -> underlying t = TPtr p -> Addressable G E (EIndex a i)
+| Ad_index_array : forall a i t c n e,
+    has_type G E a (EVal (VT t) c) -> underlying t = TArray n e -> Addressable G E a -> Addressable G E (EIndex a i)
+| Ad_sel_ptr : forall a i t c p,
+    has_type G E a (EVal (VT t) c) -> underlying t = TPtr p -> Addressable G E (ESel a i)
+| Ad_sel_struct : forall a i t c,
+    has_type G E a (EVal (VT t) c) -> (forall p, underlying t <> TPtr p) -> Addressable G E a ->
+    Addressable G E (ESel a i).
 
 (* ----------------------------------------------------------------- statements *)
 
@@ -272,6 +601,20 @@ Inductive ShortTargets (E : env) : list ident -> list etype -> list (ident * ty)
     x <> blank -> scope_get (head_scope E) x = None -> DefaultOf v t ->
     ShortTargets E xs vs news -> ShortTargets E (x :: xs) (v :: vs) ((x, t) :: news).
 
+(* a map index expression *)
+Inductive MapIndex (G : list N) (E : env) : expr -> Prop :=
+| MI_index : forall a i t c k v,
+    has_type G E a (EVal (VT t) c) -> underlying t = TMap k v -> MapIndex G E (EIndex a i).
+
+(* "Range expression: array or slice a [n]E, *[n]E, or []E: index i int, a[i]
+   E; string: index i int, rune; map m map[K]V: key k K, m[k] V" *)
+Inductive RangeTypes : etype -> ty -> ty -> Prop :=
+| RT_slice : forall t c e, underlying t = TSlice e -> RangeTypes (EVal (VT t) c) (TBasic BInt) e
+| RT_map : forall t c k v, underlying t = TMap k v -> RangeTypes (EVal (VT t) c) k v
+| RT_array : forall t c n e, ArrayOf t n e -> RangeTypes (EVal (VT t) c) (TBasic BInt) e
+| RT_string : forall t c, tclass t = KStr -> RangeTypes (EVal (VT t) c) (TBasic BInt) (TBasic BInt32)
+| RT_const_string : forall c, RangeTypes (EVal (VU UString) (Some c)) (TBasic BInt) (TBasic BInt32).
+
 Definition BoolCond (e : etype) : Prop := exists v c, e = EVal v c /\ vty_class v = KBool.
 
 (* the condition that every variable declared by s is used in the rest r of
@@ -283,11 +626,11 @@ Definition DeclsUsed (E : env) (s : stmt) (r : block) : Prop :=
 Inductive stmt_ok (G : list N) (cx : ctx) (E : env) : stmt -> env -> Prop :=
 (* var xs t *)
 | S_VarZero : forall xs t,
-    xs <> [] -> NoDupNames xs -> (forall x, In x xs -> x <> blank -> ~ InHead E x) ->
+    wf_ty t = true -> xs <> [] -> NoDupNames xs -> (forall x, In x xs -> x <> blank -> ~ InHead E x) ->
     stmt_ok G cx E (SVar xs (Some t) ENone) (declare_vars E xs (map (fun _ => t) xs))
 (* var xs t = es *)
 | S_VarTyped : forall xs t es tes vs,
-    xs <> [] -> es <> ENone -> NoDupNames xs -> (forall x, In x xs -> x <> blank -> ~ InHead E x) ->
+    wf_ty t = true -> xs <> [] -> es <> ENone -> NoDupNames xs -> (forall x, In x xs -> x <> blank -> ~ InHead E x) ->
     has_types G E es tes -> Values tes (length xs) vs -> Forall (fun v => Assignable v t) vs ->
     stmt_ok G cx E (SVar xs (Some t) es) (declare_vars E xs (map (fun _ => t) xs))
 (* var xs = es *)
@@ -300,10 +643,10 @@ Inductive stmt_ok (G : list N) (cx : ctx) (E : env) : stmt -> env -> Prop :=
     (x <> blank -> ~ InHead E x) -> has_type G E e (EVal v (Some c)) ->
     stmt_ok G cx E (SConst x None e) (declare E x (EntConst (EVal v (Some c))))
 | S_ConstTyped : forall x t e c,
-    (x <> blank -> ~ InHead E x) -> has_type G E e (EVal (VT t) (Some c)) ->
+    tclass t <> KComp -> (x <> blank -> ~ InHead E x) -> has_type G E e (EVal (VT t) (Some c)) ->
     stmt_ok G cx E (SConst x (Some t) e) (declare E x (EntConst (EVal (VT t) (Some c))))
 | S_ConstConv : forall x t e k c,
-    (x <> blank -> ~ InHead E x) -> has_type G E e (EVal (VU k) (Some c)) -> ConvUntyped k (Some c) t ->
+    tclass t <> KComp -> (x <> blank -> ~ InHead E x) -> has_type G E e (EVal (VU k) (Some c)) -> ConvUntyped k (Some c) t ->
     stmt_ok G cx E (SConst x (Some t) e) (declare E x (EntConst (EVal (VT t) (Some c))))
 (* xs := es : at least one new non blank variable on the left side *)
 | S_Short : forall xs es tes vs news,
@@ -320,7 +663,7 @@ Inductive stmt_ok (G : list N) (cx : ctx) (E : env) : stmt -> env -> Prop :=
     Binary o (EVal (VT t) None) te (EVal (VT t) c) ->
     stmt_ok G cx E (SOpAssign x o e) E
 | S_IncDec : forall x t,
-    x <> blank -> lookup E x = Some (EntVar t) -> Numeric (class_of (under t)) ->
+    x <> blank -> lookup E x = Some (EntVar t) -> Numeric (tclass t) ->
     stmt_ok G cx E (SIncDec x) E
 (* "function and method calls can appear in statement context" *)
 | S_Expr : forall e te, is_call e = true -> has_type G E e te -> stmt_ok G cx E (SExpr e) E
@@ -342,6 +685,25 @@ Inductive stmt_ok (G : list N) (cx : ctx) (E : env) : stmt -> env -> Prop :=
 | S_Break : cx_brk cx = true -> stmt_ok G cx E SBreak E
 | S_Continue : cx_loop cx = true -> stmt_ok G cx E SContinue E
 | S_Block : forall b, block_ok G cx ([] :: E) b -> stmt_ok G cx E (SBlock b) E
+(* l = e: "Each left-hand side operand must be addressable, a map index
+   expression, or [...] the blank identifier" *)
+| S_Set : forall l e t c te,
+    is_lvalue_form l = true -> has_type G E l (EVal (VT t) c) -> has_type G E e te ->
+    (Addressable G E l \/ MapIndex G E l) -> Assignable te t ->
+    stmt_ok G cx E (SSet l e) E
+(* for k, v := range e: the iteration variables are declared in the scope of
+   the statement and must be used in the body *)
+| S_RangeDef : forall k v e b te tk tv,
+    has_type G E e te -> RangeTypes te tk tv -> NoDupNames [k; v] ->
+    (forall x, In x [k; v] -> x <> blank -> In x (fu_block [] b)) ->
+    block_ok G (in_loop cx) ([] :: declare_vars ([] :: E) [k; v] [tk; tv]) b ->
+    stmt_ok G cx E (SRange k v true e b) E
+(* for k, v = range e: the iteration values are assigned *)
+| S_RangeAssign : forall k v e b te tk tv,
+    has_type G E e te -> RangeTypes te tk tv ->
+    AssignTargets E [k; v] [EVal (VT tk) None; EVal (VT tv) None] ->
+    block_ok G (in_loop cx) ([] :: E) b ->
+    stmt_ok G cx E (SRange k v false e b) E
 with block_ok (G : list N) (cx : ctx) (E : env) : block -> Prop :=
 | Bk_nil : block_ok G cx E BNil
 | Bk_cons : forall s r E',
@@ -413,6 +775,8 @@ Inductive funcs_declared : env -> list fdecl -> env -> Prop :=
    statement" *)
 Definition func_ok (G : list N) (E : env) (f : fdecl) : Prop :=
   NoDupNames (map fst (fn_params f)) /\
+  (forall t, In t (map snd (fn_params f)) -> wf_ty t = true) /\
+  (forall t, In t (fn_results f) -> wf_ty t = true) /\
   block_ok G {| cx_results := fn_results f; cx_loop := false; cx_brk := false |}
            (declare_vars ([] :: E) (map fst (fn_params f)) (map snd (fn_params f))) (fn_body f) /\
   (fn_results f <> [] -> TerminatingList (fn_body f)).
